@@ -122,7 +122,23 @@ pub fn check(sc: &Scenario, ex: &mut Exec) -> (Verdict, Option<String>) {
         let plan = DrawPlan::neutral(sc.engine_seed).with_row_id(DrawMode::Inc).with_cap(DrawMode::Seeded);
         match ex.query(&mut eng, "dp_neutral", &dp_sql, &plan) {
             Ok((rs, _)) => {
-                let rel = released(&rs);
+                if q.hide_keys {
+                    // keys grouped on but not selected: the rows released are at most the keys
+                    // held by more than tau units
+                    let allowed = holders.values().filter(|s| s.len() as f64 > tau_req * (1.0 - 1e-6)).count();
+                    ex.stats.probe("hidden_keys_row_count_checked");
+                    n_released_max = n_released_max.max(rs.rows.len());
+                    if rs.rows.len() > allowed {
+                        violations.push(Violation {
+                            property: "C04".into(),
+                            invariant: "released_below_tau".into(),
+                            class: "unclassified".into(),
+                            detail: format!("with zero threshold noise the result has {} rows - one per released key of the hidden grouping column(s) {:?} - although only {} key(s) are held by more than tau = {} units", rs.rows.len(), priv_cols, allowed, tau_req),
+                            witness: json!({"rows": rs.rows.len(), "keys_above_tau": allowed, "tau_required": tau_req}),
+                        });
+                    }
+                }
+                let rel = if q.hide_keys { BTreeSet::new() } else { released(&rs) };
                 n_released_max = n_released_max.max(rel.len());
                 for k in &rel {
                     let n = n_of(k);
@@ -213,6 +229,20 @@ pub fn check(sc: &Scenario, ex: &mut Exec) -> (Verdict, Option<String>) {
         }
         let plan = DrawPlan::neutral(sc.engine_seed).with_thr_z(z).with_row_id(DrawMode::Inc).with_cap(DrawMode::Inc);
         if let Ok((rs, _)) = ex.query(&mut eng, "dp_effective_threshold", &dp_sql, &plan) {
+            if q.hide_keys {
+                let allowed = holders.values().filter(|s| s.len() as f64 > t_eff - 1e-6).count();
+                if rs.rows.len() > allowed {
+                    violations.push(Violation {
+                        property: "C04".into(),
+                        invariant: "released_below_effective_threshold".into(),
+                        class: "unclassified".into(),
+                        detail: format!("threshold noise forced so that only counts above {} pass: the result has {} rows for hidden grouping column(s) {:?}, but only {} key(s) have that many holders", t_eff, rs.rows.len(), priv_cols, allowed),
+                        witness: json!({"rows": rs.rows.len(), "keys_above": allowed, "effective_threshold": t_eff, "z": z}),
+                    });
+                    break;
+                }
+                continue;
+            }
             let rel = released(&rs);
             n_released_max = n_released_max.max(rel.len());
             for k in &rel {
@@ -241,7 +271,7 @@ pub fn check(sc: &Scenario, ex: &mut Exec) -> (Verdict, Option<String>) {
     }
     let max_alone = alone.values().map(|v| v.len()).max().unwrap_or(0);
     let mut cap_checked = false;
-    if max_alone > sc.params.cu as usize {
+    if max_alone > sc.params.cu as usize && !q.hide_keys {
         ex.stats.fault("unit_alone_in_more_than_cu_groups");
         let mut schedules: Vec<(&str, DrawMode, u64)> = vec![
             ("seeded_a", DrawMode::Seeded, 1),
@@ -288,7 +318,7 @@ pub fn check(sc: &Scenario, ex: &mut Exec) -> (Verdict, Option<String>) {
     // I3': the cap seen through pivotal keys. With the effective threshold at t (only counts above
     // t pass), a released key k for which unit u is pivotal - n_k > t but n_k - 1 <= t, u among the
     // holders - needs u's own contribution, so it is one of the at most Cu groups u was limited to.
-    if sigma_ir > 0.0 && tau_ir.is_finite() && violations.is_empty() {
+    if sigma_ir > 0.0 && tau_ir.is_finite() && violations.is_empty() && !q.hide_keys {
         'outer: for t_eff in [1.5f64, 2.5] {
             let z = (tau_ir - t_eff) / sigma_ir;
             if z.abs() > 37.0 {
